@@ -1583,6 +1583,10 @@ def _encode_host(host: str, validate_host: bool) -> str:
         return host
 
     host = _idna_encode(host)
+    if ":" in host:
+        # The IDNA mapping turned the host into the text of an IP-literal
+        # (e.g. fullwidth digits): it has to be canonicalized as one.
+        return _encode_host(host, validate_host)
     if validate_host and (invalid := NOT_REG_NAME.search(host)):
         # IDNA (UTS #46) mapping can produce delimiters, e.g. U+FF0F -> "/"
         value, pos = invalid.group(), invalid.start()
